@@ -44,8 +44,6 @@ def followup_scenarios(rng, n):
                 hid = 20 + len(body)
                 body.append(xc.hook_action(hid, rng.choice(["before", "after"]), rng.choice(["Nop", "Mov", "Ret", "Syscall", "Jmp"]),
                                            rng.choice(["unhandled", "handled", "error"]), stop=rng.random() < 0.1))
-            if rng.random() < 0.1:
-                body.append({"op": "handle_syscalls", "list": ["Exit"]})
         scs.append(xc.scenario(f"f{k}", p, pre + hs, body))
     return scs
 
